@@ -22,6 +22,10 @@ func lz4cBin() string {
 	if p := os.Getenv("VERIF_LZ4C"); p != "" {
 		return p
 	}
+	// next to this runner (the driver builds both into the same bin directory)
+	if exe, err := os.Executable(); err == nil {
+		return filepath.Join(filepath.Dir(exe), "lz4c")
+	}
 	return "/verif/bin/lz4c"
 }
 
@@ -268,7 +272,7 @@ func compLz4c(o *out, seed uint64, tier string) {
 		if dn > 300000 && tier != "thorough" {
 			dn = 70000
 		}
-		c := &lz4cCase{data: fmt.Sprintf("g:%d,%d,%d", r.intn(4), r.intn(500), dn), flags: strings.Join(fl, " "), stdio: r.intn(4) == 0, mode: []int{0644, 0600, 0755, 0640}[r.intn(4)]}
+		c := &lz4cCase{data: fmt.Sprintf("g:%d,%d,%d", r.intn(4), r.intn(500), dn), flags: strings.Join(fl, " "), stdio: r.intn(4) == 0, mode: []int{0644, 0600, 0755, 0640, 0444, 0400, 0555}[r.intn(7)]}
 		if !c.stdio && r.intn(4) == 0 {
 			c.data2 = fmt.Sprintf("g:%d,%d,%d", r.intn(4), r.intn(500), r.intn(3000))
 		}
